@@ -133,6 +133,12 @@ func NewParameters(logn int, q, p []uint64, xs, xe DistributionLiteral, ringType
 		return Parameters{}, fmt.Errorf("error distribution type must be Ternary or DiscretGaussian but is %T", xe)
 	}
 
+	// Key generation and public-key encryption sample the secret and the error over Q and extend them to P
+	// from their first limb (see ringqp.Ring.ExtendBasisSmallNormAndCenter): they must fit in Q[0].
+	if lenP != 0 && (2*params.xe.AbsBound >= float64(q[0]) || 2*params.xs.AbsBound >= float64(q[0])) {
+		return Parameters{}, fmt.Errorf("cannot NewParameters: with an auxiliary modulus P the bounds of the secret and error distributions (%f, %f) must be smaller than Q[0]/2 = %d", params.xs.AbsBound, params.xe.AbsBound, q[0]>>1)
+	}
+
 	var warning error
 	if params.XsHammingWeight() == 0 {
 		warning = fmt.Errorf("warning secret standard HammingWeight is 0")
